@@ -230,6 +230,18 @@ Fixpoint run_ops (ops : list op) (st : mlr) (out : list bytes) : outcome (mlr * 
     run_ops ops' st' (out ++ o')
   end.
 
+(* the same run, also recording after every operation (records so far, offsetSearch,
+   offsetAppend): the correspondence check compares the reader step by step *)
+Fixpoint run_ops_tr (ops : list op) (st : mlr) (out : list bytes) (tr : list (nat * nat * nat))
+  : outcome (mlr * list bytes * list (nat * nat * nat)) :=
+  match ops with
+  | [] => Ok (st, out, tr)
+  | o :: ops' =>
+    r <-- run_op st o ;;
+    let '(st', o') := r in
+    run_ops_tr ops' st' (out ++ o') (tr ++ [(length (out ++ o'), m_search st', length (m_buf st'))])
+  end.
+
 (* what the connection's reader returns, as runConnection sees it: data (and whether
    NetConnWrapper renewed the read deadline in that call), a timeout error, any other error *)
 Inductive event := EvData (frag : bytes) (renewed : bool) | EvTimeout | EvClose.
@@ -256,14 +268,54 @@ Fixpoint api_ops (evs : list event) : list op :=
 
 End Reader.
 
+(* ---------------- util/netconnwrapper.go: NetConnWrapper.Read ----------------
+   Times in milliseconds.  [w_deadline = None] is the zero time.Time (its distance to now
+   saturates at the minimum Duration, so it is below every readTimeoutMin).  Read renews the
+   deadline to now + readTimeoutMax when less than readTimeoutMin is left of it; runConnection
+   sees a renewal as a changed ReadDeadline() and calls Flush. *)
+Record ncw := { w_min : Z; w_max : Z; w_deadline : option Z }.
+
+Definition wrap_net_conn (read_timeout : Z) : ncw :=
+  {| w_min := read_timeout; w_max := (read_timeout * 2)%Z; w_deadline := None |}.
+
+(* one Read at time [now]: new state and whether the deadline was renewed *)
+Definition ncw_read (w : ncw) (now : Z) : ncw * bool :=
+  if (0 <? w_min w)%Z then
+    let renew := match w_deadline w with
+                 | None => true
+                 | Some d => (d - now <? w_min w)%Z
+                 end in
+    if renew then ({| w_min := w_min w; w_max := w_max w; w_deadline := Some (now + w_max w)%Z |}, true)
+    else (w, false)
+  else (w, false).
+
+(* reads at the times now+g1, now+g1+g2, ... : the renewal flags *)
+Fixpoint ncw_run (w : ncw) (now : Z) (gaps : list Z) : list bool :=
+  match gaps with
+  | [] => []
+  | g :: gaps' =>
+    let now' := (now + g)%Z in
+    let '(w', r) := ncw_read w now' in
+    r :: ncw_run w' now' gaps'
+  end.
+
 (* ---------------- correspondence entry point ----------------
-   kind 0: connection script   kind 2: API script
+   kind 0: connection script   kind 2: API script   kind 3: the same stream over a real TCP connection
      sargs = the data fragments in order
      zargs = [minBufferSize; softRecordLimit; tester (0 = TestRecordStart, 1 = first byte '>');
               event codes ...]    code 0 = data, 3 = data + deadline renewed (next fragment each),
                                   1 = timeout, 2 = close
-     output  "ok:<records>:<offsetSearch>,<offsetAppend>:<hex>,<hex>,..."  |  "wedge"  |  "panic"
-   kind 1: sargs = [s]; output "t:1" | "t:0" | "panic"  (TestRecordStart)                     *)
+     output  "ok:<records>:<r.s.a;r.s.a;...>:<hex>,<hex>,..."  |  "wedge"  |  "panic"
+             with one triple (records so far . offsetSearch . offsetAppend) per operation
+     kind 3: zargs = [ListenerLineBufferSize; InputLogMaxRecordBytes; tester; flush interval ms;
+             gap after each fragment in ms ...]; the generator only emits scripts whose records do not
+             depend on where the flushes fall, so the expected records are those of the tick-free
+             script; output "tcp:<records>:<hex>,<hex>,..."
+   kind 1: sargs = [s]; output "t:1" | "t:0" | "panic"  (TestRecordStart)
+   kind 4: NetConnWrapper: zargs = [readTimeout ms; sleep before each Read in ms ...];
+           output "w:" + one digit per Read, 1 = deadline renewed
+   kind 5: burst of multi-line records over TCP after a pause; the verdict is the oracle's
+           (at most two records may be cut by flushes that are due); output "burst"          *)
 
 Fixpoint decode_events (codes : list Z) (frags : list bytes) : list event :=
   match codes with
@@ -276,28 +328,49 @@ Fixpoint decode_events (codes : list Z) (frags : list bytes) : list event :=
   end.
 
 Definition str_wedge : bytes := [119;101;100;103;101]%N.
+Definition str_tcp : bytes := [116;99;112]%N.
+Definition dot : N := 46%N.
+Definition semicolon : N := 59%N.
 
 Definition dec_nat (n : nat) : bytes := dec_of_Z (Z.of_nat n).
 
-Definition show_result (r : outcome (mlr * list bytes)) : bytes :=
+Definition show_triple (t : nat * nat * nat) : bytes :=
+  let '(r, s, a) := t in dec_nat r ++ dot :: dec_nat s ++ dot :: dec_nat a.
+
+Definition show_result (r : outcome (mlr * list bytes * list (nat * nat * nat))) : bytes :=
   match r with
-  | Ok (st, out) =>
-    str_ok ++ colon :: dec_nat (length out) ++ colon :: dec_nat (m_search st) ++ comma ::
-    dec_nat (length (m_buf st)) ++ colon :: join comma (map hex out)
+  | Ok (st, out, tr) =>
+    str_ok ++ colon :: dec_nat (length out) ++ colon :: join semicolon (map show_triple tr) ++
+    colon :: join comma (map hex out)
   | Err _ => str_wedge
   | Panic _ => str_panic
   end.
 
+Definition tester_of (z : Z) : bytes -> bool := if (z =? 0)%Z then trs else gt_test.
+
 Definition run_script (conn : bool) (c : case) : bytes :=
   let zs := c_zargs c in
   let st := new_mlr (Z.to_nat (nth 0 zs 0%Z)) (Z.to_nat (nth 1 zs 0%Z)) in
-  let test := if (nth 2 zs 0%Z =? 0)%Z then trs else gt_test in
   let evs := decode_events (skipn 3 zs) (c_sargs c) in
-  show_result (run_ops test (if conn then conn_ops evs else api_ops evs) st []).
+  show_result (run_ops_tr (tester_of (nth 2 zs 0%Z)) (if conn then conn_ops evs else api_ops evs) st [] []).
+
+Definition run_tcp (c : case) : bytes :=
+  let zs := c_zargs c in
+  let st := new_mlr (Z.to_nat (nth 0 zs 0%Z)) (Z.to_nat (nth 1 zs 0%Z)) in
+  match run_ops (tester_of (nth 2 zs 0%Z)) (conn_ops (map (fun f => EvData f false) (c_sargs c))) st [] with
+  | Ok (_, out) => str_tcp ++ colon :: dec_nat (length out) ++ colon :: join comma (map hex out)
+  | Err _ => str_wedge
+  | Panic _ => str_panic
+  end.
 
 Definition run_case_C08 (c : case) : bytes :=
   if (c_kind c =? 0)%N then run_script true c
   else if (c_kind c =? 2)%N then run_script false c
+  else if (c_kind c =? 3)%N then run_tcp c
+  else if (c_kind c =? 4)%N then
+    [119;58]%N ++ map (fun b : bool => if b then 49%N else 48%N)
+                      (ncw_run (wrap_net_conn (zarg c 0)) 0%Z (skipn 1 (c_zargs c)))
+  else if (c_kind c =? 5)%N then [98;117;114;115;116]%N
   else
     match test_record_start (sarg c 0) with
     | Ok true => [116;58;49]%N
